@@ -514,6 +514,92 @@ def diag_table():
 RSP_NAME_FIX = {'ReturnSlaveNoResponseCount': 'ReturnSlaveNoReponseCount'}      # (sic) class name in diag_message.py
 
 
+# --------------------------------------------------------------------------- FC 20 / 21 file records (6.14, 6.15) - BOUNDED in the number of records
+MAXREC = 3
+
+
+class FileRecords(Codec):
+    """groups of file records.  The number of records per message is bounded (0..MAXREC, the decode loops are unrolled); within the bound
+    file numbers, record numbers and record data (any even length that fits the PDU) are arbitrary.
+      6.14 request   byte count 7k | per group: 06, file number, record number, record length (registers)
+      6.14 response  data length | per group: group length (1 + 2N), 06, N registers of data
+      6.15 request and response (echo)   data length | per group: 06, file number, record number, N, N registers of data"""
+    bounded = True
+
+    def __init__(self, cls, fc, direction, layout):
+        self.cls, self.fc, self.direction, self.layout = cls, fc, direction, layout
+        q = cls + '.decode'
+        self.unroll = {(q, 0): MAXREC + 1}
+        if layout == 'read-rsp':
+            # encode writes each group as (06, N registers) where 6.14 prescribes (group length 1 + 2N, 06); pinned by test_file_message.py
+            some = lambda v: v['n'] >= 1
+            self.findings = {'enc:bytes': ('C01-F5', some), 'rt:exception': ('C02-F5', some), 'rt:n': ('C02-F5', some)}
+            for i in range(MAXREC + 1):
+                for key in ('file', 'record', 'length', 'data'):
+                    self.findings['rt:%s%d' % (key, i)] = ('C02-F5', some)
+
+    def view(self, E, pfx=''):
+        # the read response does not survive its own encode (C01-F5): its round trip is examined for one group only
+        top = 1 if (self.layout == 'read-rsp' and getattr(self, 'tag', '') in ('rt', 'message')) else MAXREC
+        k = E.choice(pfx + 'records', list(range(top + 1)))
+        v = {'n': k}
+        total = 0
+        for i in range(k):
+            if self.layout != 'read-rsp':
+                v['file%d' % i], v['record%d' % i] = u16(E, pfx + 'file%d' % i), u16(E, pfx + 'record%d' % i)
+            if self.layout == 'read-req':
+                v['length%d' % i] = u16(E, pfx + 'length%d' % i)
+                total += 7
+            else:
+                d = E.bytes(pfx + 'data%d' % i, 0, 250)
+                E.assume(L.length(d) % 2 == 0)
+                v['data%d' % i] = d
+                total = total + L.length(d) + (2 if self.layout == 'read-rsp' else 7)
+        E.assume(total <= 251)
+        return v
+
+    def wire(self, E, v):
+        k = v['n']
+        parts, total = [], 0
+        for i in range(k):
+            if self.layout == 'read-req':
+                parts += [[0x06], P.be16(v['file%d' % i]), P.be16(v['record%d' % i]), P.be16(v['length%d' % i])]
+                total += 7
+            elif self.layout == 'read-rsp':
+                n = L.length(v['data%d' % i])
+                parts += [[1 + n, 0x06], v['data%d' % i]]
+                total = total + 2 + n
+            else:
+                n = L.length(v['data%d' % i])
+                parts += [[0x06], P.be16(v['file%d' % i]), P.be16(v['record%d' % i]), P.be16(n // 2), v['data%d' % i]]
+                total = total + 7 + n
+        return L.concat([total], *parts) if parts else [total]
+
+    def fields(self, E, v):
+        recs = []
+        for i in range(v['n']):
+            if self.layout == 'read-req':
+                f = dict(file_number=v['file%d' % i], record_number=v['record%d' % i], record_length=v['length%d' % i], record_data=b'', response_length=1)
+            else:
+                d = v['data%d' % i]
+                f = dict(file_number=v.get('file%d' % i, 0), record_number=v.get('record%d' % i, 0), record_data=E.as_bytes(L.tolist(d)),
+                         record_length=L.length(d) // 2, response_length=L.length(d) + 1)
+            recs.append(E.obj(FM + 'FileRecord', reference_type=0x06, **f))
+        return {'records': recs}
+
+    def read(self, E, obj):
+        recs = list(E.get(obj, 'records'))
+        out = {'n': len(recs)}
+        for i in range(MAXREC + 1):
+            r = recs[i] if i < len(recs) else None
+            for key, attr in (('file', 'file_number'), ('record', 'record_number'), ('length', 'record_length'), ('data', 'record_data')):
+                out['%s%d' % (key, i)] = E.get(r, attr) if r is not None else None
+        return out
+
+    def prior(self, E):
+        return self.fields(E, self.view(E, 'old_'))
+
+
 def all_codecs():
     cs = [
         ReadReq(BR + 'ReadCoilsRequest', 1), ReadReq(BR + 'ReadDiscreteInputsRequest', 2),
@@ -533,6 +619,8 @@ def all_codecs():
         Empty(OT + 'ReportSlaveIdRequest', 17), SlaveIdRsp(),
         Fixed(FM + 'ReadFifoQueueRequest', 24, 'req', 'H', ['address']), FifoRsp(),
         DevInfoReq(), ExceptionRsp(),
+        FileRecords(FM + 'ReadFileRecordRequest', 20, 'req', 'read-req'), FileRecords(FM + 'ReadFileRecordResponse', 20, 'rsp', 'read-rsp'),
+        FileRecords(FM + 'WriteFileRecordRequest', 21, 'req', 'write'), FileRecords(FM + 'WriteFileRecordResponse', 21, 'rsp', 'write'),
     ]
     for sub, nm, store, nmin, nmax in diag_table():
         cs.append(DiagWords(DG + nm + 'Request', 'req', sub, store if nm != 'GetClearModbusPlus' else 'int', nmin, nmax))
